@@ -237,25 +237,29 @@ func c07R5(w *World, r *Report) {
 		})
 	}
 	for _, fn := range w.fnsByBase("sendToChannelsWithContext") {
-		for _, in := range w.callSitesIn(fn, "sendOptionalWithContext") {
-			c := callOf(in)
-			p := w.path(c.Args[1])
-			okc := false
-			arg := c.Args[1]
-			if ct, ok := arg.(*ssa.ChangeType); ok {
-				arg = ct.X
-			}
-			if u, ok := arg.(*ssa.UnOp); ok {
-				if ia, ok := u.X.(*ssa.IndexAddr); ok && w.path(ia.X) == "p:channels" {
-					if phi, ok := ia.Index.(*ssa.BinOp); ok {
-						okc = ascendingIndex(phi)
-					} else if ph, ok := ia.Index.(*ssa.Phi); ok {
-						okc = ascendingPhi(ph)
+		ops := deliveries(w, fn)
+		okc := len(ops) == 1 && ops[0].blocking
+		why := fmt.Sprintf("%d delivery operations", len(ops))
+		if okc {
+			okc = false
+			why = "the delivered channel is not channels[i] for an index counting up from 0 over the whole slice"
+			if idx := channelsElemIndex(w, ops[0].ch); idx != nil {
+				if init, bound, up := countsUp(idx); up {
+					if z, isC := constInt(init); isC && z == 0 {
+						if c, ok := bound.(*ssa.Call); ok {
+							if bi, ok := c.Call.Value.(*ssa.Builtin); ok && bi.Name() == "len" && w.path(c.Call.Args[0]) == "p:channels" {
+								okc = true
+							}
+						}
 					}
 				}
 			}
-			r.check(okc, rule, w.name(fn)+":order", w.instrPos(in), "channels[i] for ascending i", "waiters are not answered in slice order ("+p+")")
 		}
+		site := "-"
+		if len(ops) > 0 {
+			site = w.instrPos(ops[0].in)
+		}
+		r.check(okc, rule, w.name(fn)+":order", site, "channels[i] answered once each, blocking, for i = 0,1,…", "waiters are not answered one by one in slice order ("+why+"): a later batch (or a Flush) can be acknowledged while an earlier one is still unanswered")
 	}
 }
 
